@@ -139,7 +139,19 @@ def normalise_fw(events, dev: hostobs.Devices, *, keep_config=False, user_pinmod
     servo_pin = {}
     just_attached = None
     in_setup = True
+    lcds = {}        # objname -> dict(idx, cols, rows, cells{(r,c): piece}, dirty, off_screen)
+
+    def flush_lcds():
+        for name, L in lcds.items():
+            if L["dirty"]:
+                L["dirty"] = False
+                rows = []
+                for r in range(L["rows"]):
+                    rows.append(tuple(L["cells"].get((r, c), ("c", 32)) for c in range(L["cols"])))
+                out.append(("lcd_snapshot", L["idx"], tuple(rows), L["cols"], L["rows"]))
     for ev in events:
+        if not ev[0].startswith("lcd_") and ev[0] not in ("millis", "micros", "pinMode"):
+            flush_lcds()
         k = ev[0]
         if k == "marker":
             in_setup = ev[1] == "setup"
@@ -203,8 +215,50 @@ def normalise_fw(events, dev: hostobs.Devices, *, keep_config=False, user_pinmod
             out.append(("servo_angle", servo_pin.get(ev[1], ev[1]), ev[2]))
         elif k == "servo_us":
             out.append(("servo_pulse", servo_pin.get(ev[1], ev[1]), ev[2]))
+        elif k == "lcd_init":
+            cols = ev[2].v if isinstance(ev[2], BV) else ev[2]
+            rows = ev[3].v if isinstance(ev[3], BV) else ev[3]
+            L = lcds.setdefault(ev[1], {"idx": len(lcds), "cells": {}, "off": [], "dirty": False})
+            L.update(cols=cols, rows=rows, cells={}, dirty=False)
+            out.append(("lcd_init", L["idx"], cols, rows))
+        elif k == "lcd_clear":
+            L = lcds.get(ev[1])
+            if L is None:
+                out.append(("lcd_error", "clear before init"))
+            else:
+                L["cells"] = {}
+                L["dirty"] = True
+        elif k == "lcd_cursor":
+            continue
+        elif k == "lcd_put":
+            L = lcds.get(ev[1])
+            if L is None:
+                out.append(("lcd_error", "put before init"))
+                continue
+            r, c = ev[2], ev[3]
+            if not (0 <= r < L["rows"] and 0 <= c < L["cols"]):
+                out.append(("lcd_off_screen", L["idx"], r, c))
+            else:
+                pc_ = ev[4]
+                if pc_[0] == "c":
+                    ch = pc_[1]
+                    pc_ = ("c", (ch.v if ch.concrete else ch.v) if isinstance(ch, BV) else ch)
+                L["cells"][(r, c)] = pc_
+                L["dirty"] = True
+        elif k == "lcd_display":
+            L = lcds.get(ev[1])
+            out.append(("lcd_display", L["idx"] if L else -1, ev[2].v if isinstance(ev[2], BV) and ev[2].concrete else ev[2]))
+        elif k == "lcd_backlight":
+            L = lcds.get(ev[1])
+            out.append(("lcd_backlight", L["idx"] if L else -1, ev[2].v if isinstance(ev[2], BV) and ev[2].concrete else ev[2]))
+        elif k == "lcd_glyph":
+            L = lcds.get(ev[1])
+            slot = ev[2].v if isinstance(ev[2], BV) and ev[2].concrete else ev[2]
+            rows8 = tuple((x.v if x.concrete else x) if isinstance(x, BV) else x for x in ev[3])
+            out.append(("lcd_glyph", L["idx"] if L else -1, slot, rows8))
         else:
             out.append(ev)
+    flush_lcds()
     return out
 
 
@@ -216,10 +270,28 @@ def host_pin_set(th, dev):
     return pins
 
 
+def _host_cells(buf_rows):
+    rows = []
+    for line in buf_rows:
+        cells = []
+        for ch in line:
+            o = ord(ch)
+            cells.append(("c", 255 if o == 0x2588 else o))
+        rows.append(tuple(cells))
+    return tuple(rows)
+
+
 def normalise_host(events, dev: hostobs.Devices):
     out = []
     for ev in events:
         k = ev[0]
+        if k == "lcd_snapshot":
+            snap = ("lcd_snapshot", ev[1], _host_cells(ev[2]), ev[3], ev[4])
+            if out and out[-1][0] == "lcd_snapshot" and out[-1][1] == ev[1]:
+                out[-1] = snap
+            else:
+                out.append(snap)
+            continue
         if k in ("serial_begin", "time.sleep", "servo_attach"):
             continue
         if k == "dwrite":
@@ -294,9 +366,21 @@ def drop_redundant_levels(evs):
     return out
 
 
+def drop_repeated_snapshots(evs):
+    last = {}
+    out = []
+    for ev in evs:
+        if ev[0] == "lcd_snapshot":
+            if last.get(ev[1]) == ev[2]:
+                continue
+            last[ev[1]] = ev[2]
+        out.append(ev)
+    return out
+
+
 def merge_serial(evs):
     """Merge runs of ('ser', piece) into one ('serial', [pieces]) with adjacent chars joined."""
-    evs = drop_redundant_levels(evs)
+    evs = drop_repeated_snapshots(drop_redundant_levels(evs))
     out = []
     cur = None
     for ev in evs:
@@ -666,6 +750,24 @@ def parse_runtime_output(text: str):
             evs.append((k, BV(8, int(p[1]))))
         elif k == "pulseIn":
             evs.append((k, BV(8, int(p[1])), BV(8, int(p[2])), BV(64, int(p[3]))))
+        elif k == "lcd_init":
+            evs.append((k, p[1], BV(32, int(p[2])), BV(32, int(p[3])), BV(32, int(p[4]))))
+        elif k == "lcd_clear":
+            evs.append((k, p[1]))
+        elif k == "lcd_cursor":
+            evs.append((k, p[1], BV(32, int(p[2]) & 0xFFFFFFFF), BV(32, int(p[3]) & 0xFFFFFFFF)))
+        elif k == "lcd_put":
+            if p[4] == "c":
+                piece = ("c", BV(32, int(p[5]) & 0xFFFFFFFF))
+            elif p[4] == "int":
+                piece = ("int", BV(64, int(p[5]) & ((1 << 64) - 1)))
+            else:
+                piece = ("flt", FP(64, float(p[5])), BV(32, 2))
+            evs.append((k, p[1], int(p[2]), int(p[3]), piece))
+        elif k in ("lcd_display", "lcd_backlight"):
+            evs.append((k, p[1], BV(32, int(p[2]))))
+        elif k == "lcd_glyph":
+            evs.append((k, p[1], BV(32, int(p[2])), tuple(BV(8, int(x)) for x in p[3:11])))
         else:
             evs.append(tuple([k] + p[1:]))
     return evs
@@ -915,12 +1017,23 @@ class ScriptDiff:
 
 
 def classify(where: str) -> str:
-    """Witness class used to match known findings: the kind of difference with numbers abstracted."""
+    """Witness class used to match known findings.  Deliberately coarse and independent of which model the
+    solver happened to return: the channel on which the difference shows."""
     import re
     w = re.sub(r"event \d+: ", "", where)
-    w = re.sub(r"0x[0-9a-f]+", "#", w)
-    w = re.sub(r"-?\d+(\.\d+)?", "#", w)
-    return w[:80]
+    if w.startswith("monitor"):
+        return re.sub(r"-?\d+", "#", w)[:80]
+    if w.startswith("serial"):
+        return "serial"
+    if w.startswith("trace length"):
+        return "trace-length"
+    m = re.match(r"firmware (\w+) vs python (\w+)", w)
+    if m:
+        kinds = sorted([m.group(1), m.group(2)])
+        if "serial" in kinds or "marker" in kinds:
+            return "serial" if "serial" in kinds else "structure"
+        return "structure"
+    return w.split(" ")[0]
 
 
 def _render(tr):
